@@ -119,7 +119,8 @@ class Check(PropCheck):
         elif kind == 'collapse':
             lens = [x.length for x in t.nodes() if x.length is not None]
             # boundary values: a threshold exactly equal to an existing branch length (strictly-shorter test)
-            thr = rng.choice(lens) if (lens and rng.random() < 0.6) else rng.choice([0.0, 0.3, 1.0, 2.5, 100.0])
+            # (exact dyadic trees only: for inexact decimals the model keeps the decimal value and the crate its f64 rounding)
+            thr = rng.choice(lens) if (lens and job['mode'] == 'exact' and rng.random() < 0.6) else rng.choice([0.0, 0.3, 1.0, 2.5, 100.0])
             ex = rng.random() < 0.5
             args = ['collapse', tf, repr(thr)] + (['-e'] if ex else [])
             info['thr'] = thr; info['ex'] = ex
